@@ -108,144 +108,156 @@ func c19DrawPattern(t *rapid.T, id int, prev []*c19Pat) *c19Pat {
 	return &c19Pat{id, opcode.Opcode{Bytes: b, Mask: m}}
 }
 
+var colC19 *ev.Collector
+
+// propC19 is the property of C19; it is shared by the rapid test and the native
+// fuzz target.
+func propC19(t *rapid.T) {
+	col := colC19
+	col.Case()
+	n := rapid.IntRange(1, 8).Draw(t, "npat")
+	var pats []*c19Pat
+	for i := 0; i < n; i++ {
+		pats = append(pats, c19DrawPattern(t, i, pats))
+	}
+	desc := fmt.Sprint(pats)
+
+	allWF := true
+	for _, p := range pats {
+		if !c19WellFormed(p.o) {
+			allWF = false
+		}
+	}
+	conflict := ""
+	partial, difflen := false, false
+	if allWF {
+		for i := range pats {
+			for j := i + 1; j < len(pats); j++ {
+				p, q := pats[i].o, pats[j].o
+				if c19Conflict(p, q) && conflict == "" {
+					conflict = fmt.Sprintf("%s and %s", pats[i], pats[j])
+				}
+				if len(p.Bytes) != len(q.Bytes) {
+					difflen = true
+				} else {
+					pq, qp := false, false
+					for k := range p.Mask {
+						if p.Mask[k]&^q.Mask[k] != 0 {
+							pq = true
+						}
+						if q.Mask[k]&^p.Mask[k] != 0 {
+							qp = true
+						}
+					}
+					if pq && qp {
+						partial = true
+					}
+				}
+			}
+		}
+	}
+
+	var m *opcode.Matcher[*c19Pat]
+	var err error
+	if msg := catch(func() { m, err = opcode.NewMatcher(pats) }); msg != "" {
+		t.Fatalf("NewMatcher(%s): %s", desc, msg)
+	}
+	wantOK := allWF && conflict == ""
+	if wantOK && err != nil {
+		t.Fatalf("NewMatcher(%s) failed although all patterns are well formed and unambiguous: %v", desc, err)
+	}
+	if !wantOK && err == nil {
+		if !allWF {
+			t.Fatalf("NewMatcher(%s) accepted a malformed pattern", desc)
+		}
+		t.Fatalf("NewMatcher(%s) accepted ambiguous patterns %s", desc, conflict)
+	}
+	switch {
+	case !allWF:
+		col.Class("malformed")
+	case conflict != "":
+		col.Class("ambiguous")
+	default:
+		col.Class("accepted")
+	}
+	if allWF && (partial || difflen) {
+		col.Nontrivial(desc)
+		if partial {
+			col.Class("partially-overlapping-masks")
+		}
+		if difflen {
+			col.Class("different-lengths")
+		}
+	}
+	if err != nil {
+		return
+	}
+
+	for k := 0; k < 12; k++ {
+		var s []byte
+		switch rapid.IntRange(0, 3).Draw(t, "sk") {
+		case 0:
+			s = rapid.SliceOfN(rapid.Byte(), 0, 6).Draw(t, "srnd")
+		default:
+			p := pats[rapid.IntRange(0, len(pats)-1).Draw(t, "sp")].o
+			s = make([]byte, len(p.Bytes))
+			for i := range s {
+				s[i] = (p.Bytes[i] & p.Mask[i]) | (rapid.Byte().Draw(t, "dc") &^ p.Mask[i])
+			}
+			switch rapid.IntRange(0, 3).Draw(t, "smod") {
+			case 0:
+				i := rapid.IntRange(0, len(s)-1).Draw(t, "fi")
+				s[i] ^= byte(1) << uint(rapid.IntRange(0, 7).Draw(t, "fb"))
+			case 1:
+				s = append(s, rapid.SliceOfN(rapid.Byte(), 0, 3).Draw(t, "tail")...)
+			case 2:
+				s = s[:rapid.IntRange(0, len(s)).Draw(t, "cut")]
+			}
+		}
+		var want *c19Pat
+		for _, p := range pats {
+			if c19Matches(p.o, s) {
+				if want != nil {
+					t.Fatalf("harness bug: %x matches both %s and %s", s, want, p)
+				}
+				want = p
+			}
+		}
+		var got *c19Pat
+		var ok bool
+		if msg := catch(func() { got, ok = m.Match(s) }); msg != "" {
+			t.Fatalf("Match(%x) on %s: %s", s, desc, msg)
+		}
+		if (want != nil) != ok || (ok && got != want) {
+			t.Fatalf("Match(%x) on %s = (%v, %v), want %v", s, desc, got, ok, want)
+		}
+		if want != nil {
+			col.Class("match/hit")
+		} else {
+			col.Class("match/miss")
+		}
+	}
+	if col.WantSample() {
+		col.Sample(desc)
+	} else {
+		col.SkipSample()
+	}
+}
+
 func TestC19(t *testing.T) {
-	col := ev.New("C19", "rapid: sets of 1-8 opcode patterns of length 1-4 with bytes/masks from {00,0f,f0,ff,random}, "+
+	colC19 = ev.New("C19", "rapid: sets of 1-8 opcode patterns of length 1-4 with bytes/masks from {00,0f,f0,ff,random}, "+
 		"don't-care bits set in Bytes, 1/24 malformed (empty, length mismatch, zero last mask byte), 1/3 derived from an "+
 		"earlier pattern by one bit of bytes/mask or by lengthening/shortening; NewMatcher must succeed iff all patterns "+
 		"are well formed and no two agree on their common mask bits over the common prefix; on success 12 byte strings "+
 		"(pattern instances with random don't-cares, one-bit neighbours, random, lengths 0-6) must match exactly the "+
 		"linear-scan reference. non-trivial = set with two patterns of different length or partially overlapping masks "+
 		"(neither mask a subset of the other); distinct by pattern set")
+	col := colC19
 	defer col.Flush()
 
-	rapid.Check(t, func(t *rapid.T) {
-		col.Case()
-		n := rapid.IntRange(1, 8).Draw(t, "npat")
-		var pats []*c19Pat
-		for i := 0; i < n; i++ {
-			pats = append(pats, c19DrawPattern(t, i, pats))
-		}
-		desc := fmt.Sprint(pats)
-
-		allWF := true
-		for _, p := range pats {
-			if !c19WellFormed(p.o) {
-				allWF = false
-			}
-		}
-		conflict := ""
-		partial, difflen := false, false
-		if allWF {
-			for i := range pats {
-				for j := i + 1; j < len(pats); j++ {
-					p, q := pats[i].o, pats[j].o
-					if c19Conflict(p, q) && conflict == "" {
-						conflict = fmt.Sprintf("%s and %s", pats[i], pats[j])
-					}
-					if len(p.Bytes) != len(q.Bytes) {
-						difflen = true
-					} else {
-						pq, qp := false, false
-						for k := range p.Mask {
-							if p.Mask[k]&^q.Mask[k] != 0 {
-								pq = true
-							}
-							if q.Mask[k]&^p.Mask[k] != 0 {
-								qp = true
-							}
-						}
-						if pq && qp {
-							partial = true
-						}
-					}
-				}
-			}
-		}
-
-		var m *opcode.Matcher[*c19Pat]
-		var err error
-		if msg := catch(func() { m, err = opcode.NewMatcher(pats) }); msg != "" {
-			t.Fatalf("NewMatcher(%s): %s", desc, msg)
-		}
-		wantOK := allWF && conflict == ""
-		if wantOK && err != nil {
-			t.Fatalf("NewMatcher(%s) failed although all patterns are well formed and unambiguous: %v", desc, err)
-		}
-		if !wantOK && err == nil {
-			if !allWF {
-				t.Fatalf("NewMatcher(%s) accepted a malformed pattern", desc)
-			}
-			t.Fatalf("NewMatcher(%s) accepted ambiguous patterns %s", desc, conflict)
-		}
-		switch {
-		case !allWF:
-			col.Class("malformed")
-		case conflict != "":
-			col.Class("ambiguous")
-		default:
-			col.Class("accepted")
-		}
-		if allWF && (partial || difflen) {
-			col.Nontrivial(desc)
-			if partial {
-				col.Class("partially-overlapping-masks")
-			}
-			if difflen {
-				col.Class("different-lengths")
-			}
-		}
-		if err != nil {
-			return
-		}
-
-		for k := 0; k < 12; k++ {
-			var s []byte
-			switch rapid.IntRange(0, 3).Draw(t, "sk") {
-			case 0:
-				s = rapid.SliceOfN(rapid.Byte(), 0, 6).Draw(t, "srnd")
-			default:
-				p := pats[rapid.IntRange(0, len(pats)-1).Draw(t, "sp")].o
-				s = make([]byte, len(p.Bytes))
-				for i := range s {
-					s[i] = (p.Bytes[i] & p.Mask[i]) | (rapid.Byte().Draw(t, "dc") &^ p.Mask[i])
-				}
-				switch rapid.IntRange(0, 3).Draw(t, "smod") {
-				case 0:
-					i := rapid.IntRange(0, len(s)-1).Draw(t, "fi")
-					s[i] ^= byte(1) << uint(rapid.IntRange(0, 7).Draw(t, "fb"))
-				case 1:
-					s = append(s, rapid.SliceOfN(rapid.Byte(), 0, 3).Draw(t, "tail")...)
-				case 2:
-					s = s[:rapid.IntRange(0, len(s)).Draw(t, "cut")]
-				}
-			}
-			var want *c19Pat
-			for _, p := range pats {
-				if c19Matches(p.o, s) {
-					if want != nil {
-						t.Fatalf("harness bug: %x matches both %s and %s", s, want, p)
-					}
-					want = p
-				}
-			}
-			var got *c19Pat
-			var ok bool
-			if msg := catch(func() { got, ok = m.Match(s) }); msg != "" {
-				t.Fatalf("Match(%x) on %s: %s", s, desc, msg)
-			}
-			if (want != nil) != ok || (ok && got != want) {
-				t.Fatalf("Match(%x) on %s = (%v, %v), want %v", s, desc, got, ok, want)
-			}
-			if want != nil {
-				col.Class("match/hit")
-			} else {
-				col.Class("match/miss")
-			}
-		}
-		if col.WantSample() {
-			col.Sample(desc)
-		} else {
-			col.SkipSample()
-		}
-	})
+	rapid.Check(t, propC19)
 }
+
+// FuzzC19 drives the same property with Go's coverage-guided fuzzer (thorough
+// tier only; see DESIGN.md).
+func FuzzC19(f *testing.F) { f.Fuzz(rapid.MakeFuzz(propC19)) }
